@@ -551,8 +551,10 @@ func (v *Verifier) box(st *State, val *Term, t types.Type) *Term {
 	bf := v.D.boxFn(val.Sort)
 	uf := v.D.unboxFn(val.Sort)
 	b := mk("Iface", bf, tid, val)
-	st.assume(mk("Bool", "=", mk("Int", "zz_dyn", b), tid))
-	st.assume(mk("Bool", "=", mk(val.Sort, uf, b), val))
+	if !mentionsBound(val) {
+		st.assume(mk("Bool", "=", mk("Int", "zz_dyn", b), tid))
+		st.assume(mk("Bool", "=", mk(val.Sort, uf, b), val))
+	}
 	return b
 }
 
